@@ -169,7 +169,7 @@ func (p *Program) Roots() ([]*Root, error) {
 				continue
 			}
 			switch s.ExtName {
-			case "github.com/cosmos/cosmos-sdk/types/module.Configurator.RegisterMigration":
+			case "cosmos/types/module.Configurator.RegisterMigration":
 				args := s.Instr.Common().Args
 				if len(args) == 3 {
 					for _, fn := range resolveFuncValue(args[2], 0) {
